@@ -120,6 +120,10 @@ func (p c19Plan) describe() string {
 	return fmt.Sprintf("in_flight=%d stop=%v cycles=%d conns=[%s]", p.InFlight, p.Stop, p.Cycles, strings.Join(parts, " "))
 }
 
+// settleBudget bounds the wait for in-flight kernel events and goroutine scheduling after a churn; a leak never
+// settles, a loaded machine does.
+const settleBudget = 15 * time.Second
+
 func countFDs() int {
 	ents, err := os.ReadDir("/proc/self/fd")
 	if err != nil {
@@ -363,14 +367,18 @@ func evalC19Plan(p c19Plan) *Failure {
 			// "-hold" clients keep their end open after the server ended the connection: resources must be
 			// released regardless - the registry may hold only the non-reading stallers (and idle connections)
 			stallerReady.Wait()
-			deadline := time.Now().Add(5 * time.Second)
+			deadline := time.Now().Add(settleBudget)
 			for len(srv.Conns()) > nStall+nIdle && time.Now().Before(deadline) {
 				time.Sleep(2 * time.Millisecond)
 			}
 			if n := len(srv.Conns()); n > nStall+nIdle {
+				var regs []string
+				for _, rc := range srv.Conns() {
+					regs = append(regs, rc.RemoteAddr().String())
+				}
 				close(releaseStallers)
 				stallWg.Wait()
-				return failf("c19|release-blocked-by-stalled-peer", "%s: %d connections are still registered 5s after every connection except %d non-reading clients had ended (clients that merely keep their end open after QUIT or a protocol error do not count): the server side of an ended connection was not released", what, n, nStall)
+				return failf("c19|release-blocked-by-stalled-peer", "%s: registered peers %v; %d connections are still registered 15s after every connection except %d non-reading clients had ended (clients that merely keep their end open after QUIT or a protocol error do not count): the server side of an ended connection was not released", what, regs, n, nStall)
 			}
 		}
 		close(releaseStallers)
@@ -405,7 +413,7 @@ func evalC19Plan(p c19Plan) *Failure {
 	if stopped {
 		wantFD, wantG = fd0, 0
 	}
-	deadline := time.Now().Add(5 * time.Second)
+	deadline := time.Now().Add(settleBudget)
 	for {
 		fds, conns, gs := countFDs(), len(srv.Conns()), sched.ServerGoroutines()
 		if fds <= wantFD && conns == 0 && len(gs) == wantG {
@@ -414,7 +422,7 @@ func evalC19Plan(p c19Plan) *Failure {
 		if time.Now().After(deadline) {
 			switch {
 			case conns != 0:
-				return failf("c19|registry-leak", "%s: %d connections still registered 5s after the churn (series %v)", what, conns, series)
+				return failf("c19|registry-leak", "%s: %d connections still registered 15s after the churn (series %v)", what, conns, series)
 			case len(gs) != wantG:
 				extra := ""
 				for _, g := range gs {
@@ -423,9 +431,9 @@ func evalC19Plan(p c19Plan) *Failure {
 						break
 					}
 				}
-				return failf("c19|goroutine-leak", "%s: %d server goroutines 5s after the churn, baseline %d (series %v); e.g. %s", what, len(gs), wantG, series, extra)
+				return failf("c19|goroutine-leak", "%s: %d server goroutines 15s after the churn, baseline %d (series %v); e.g. %s", what, len(gs), wantG, series, extra)
 			default:
-				return failf("c19|descriptor-leak", "%s: %d open descriptors 5s after the churn, baseline %d (series %v); open: %v", what, fds, wantFD, series, fdTargets())
+				return failf("c19|descriptor-leak", "%s: %d open descriptors 15s after the churn, baseline %d (series %v); open: %v", what, fds, wantFD, series, fdTargets())
 			}
 		}
 		time.Sleep(5 * time.Millisecond)
@@ -442,7 +450,7 @@ var _ = io.EOF
 func TestC19(t *testing.T) {
 	h := newHarness(t, "C19", "ending modes {FIN at a request boundary, FIN inside a request at every sampled offset, full close, QUIT with requests pipelined behind it, malformed frame at a random position, write failure after N bytes, rejected certificate} x position in a pipeline on scripted connections "+
 		"(exact cut offsets and write failures injected deterministically; Close calls counted), and churn plans on real loopback TCP/TLS: 1..32 connections in flight mixing {FIN, FIN mid-request, RST (linger 0), QUIT, malformed frame, peer that stops reading then resets, "+
-		"QUIT / malformed frame with the client keeping its own end open, TLS ok, TLS without certificate, TLS with a rejected name, garbage on the TLS port, idle until Server.Stop}. Oracle: per connection the socket is closed (client sees EOF/reset), the loop returned and the registry entry is gone; per plan, after a 5 s settle budget, "+
+		"QUIT / malformed frame with the client keeping its own end open, TLS ok, TLS without certificate, TLS with a rejected name, garbage on the TLS port, idle until Server.Stop}. Oracle: per connection the socket is closed (client sees EOF/reset), the loop returned and the registry entry is gone; per plan, after a settle budget of 15 s (what is judged is the final state), "+
 		"the server goroutine count, len(Conns()) and the /proc/self/fd count are back at the values sampled before the plan. Thorough: up to 10^4 connection endings per plan in repeated cycles. "+
 		"Non-trivial: the plan mixes >=3 ending modes with >=4 connections in flight (scripted: an ending other than FIN at a boundary). Distinct = distinct case.")
 	defer h.Finish()
